@@ -184,7 +184,9 @@ def gen_layout(rng, desc, for_cli=False, ambiguous=None, d9=None, badtop=False):
               "sys_in_auto": rng.random() < 0.5, "ambiguous": ambiguous, "exclude": None}
     if rng.random() < (0.3 if for_cli else 0.4):
         names = [s["name"] for s in desc["species"]]
-        ex = rng.sample(names, 1 if for_cli else rng.randint(1, min(2, len(names))))
+        # one, several or ALL species excluded (two excluded species that are neighbours in discovery order: seed
+        # C20-10, `for name in found: found.remove(name)` skips the element after each removal)
+        ex = rng.sample(names, rng.choice([1, 1, min(2, len(names)), len(names)]))
         if rng.random() < 0.3:
             ex.append("NOPE")
         layout["exclude"] = ex
